@@ -215,6 +215,8 @@ type Config struct {
 	ParamFresh bool
 	// Opaque handles method calls on opaque values (data sets, thread pools) before the built-in treatment.
 	Opaque OpaqueHook
+	// FiniteSyms: symbolic terms denote finite numbers, so comparisons with the symbol -Inf are decided (x > -Inf).
+	FiniteSyms bool
 }
 
 type Interp struct {
@@ -837,6 +839,11 @@ func (it *Interp) eval(e ast.Expr) Value {
 		if v, ok := it.lookup(o); ok {
 			return v
 		}
+		if o != nil {
+			if n := namedOf(o.Type()); n != nil && n.Obj().Name() == "ScalarType" {
+				return &OpaqueVal{"scalartype"} // Float64Type, Real64Type, ... : carried, never inspected
+			}
+		}
 		it.undecided(e.Pos(), "unbound identifier %s", x.Name)
 	case *ast.BasicLit:
 		it.undecided(e.Pos(), "literal %s", x.Value)
@@ -1014,6 +1021,25 @@ func (it *Interp) compare(op token.Token, l, r Value, pos token.Pos) *BoolVal {
 			return &BoolVal{Known: true, V: v}
 		}
 	}
+	if it.cfg.FiniteSyms {
+		aInf, bInf := a.String() == "-Inf", b.String() == "-Inf"
+		if aInf != bInf && !strings.Contains(a.String()+b.String(), "+Inf") && !(aInf && strings.Contains(b.String(), "Inf")) && !(bInf && strings.Contains(a.String(), "Inf")) {
+			// -Inf < x for every finite x
+			var v bool
+			switch op {
+			case token.LSS, token.LEQ, token.NEQ:
+				v = aInf
+			case token.GTR, token.GEQ:
+				v = bInf
+			case token.EQL:
+				v = false
+			}
+			if op == token.NEQ {
+				v = true
+			}
+			return &BoolVal{Known: true, V: v}
+		}
+	}
 	if sym.Equal(a, b) {
 		switch op {
 		case token.EQL, token.LEQ, token.GEQ:
@@ -1140,6 +1166,19 @@ func (it *Interp) call(call *ast.CallExpr) Value {
 				}
 			case "make":
 				if len(call.Args) == 2 {
+					if tv, ok := info.Types[call.Args[0]]; ok {
+						if sl, ok := tv.Type.Underlying().(*types.Slice); ok {
+							if b, isBasic := sl.Elem().Underlying().(*types.Basic); !isBasic || b.Info()&types.IsNumeric == 0 {
+								if n, ok := constIndex(it.evalTerm(call.Args[1])); ok && n <= 64 {
+									l := &ListVal{}
+									for i := 0; i < n; i++ {
+										l.Elems = append(l.Elems, NilVal{})
+									}
+									return l
+								}
+							}
+						}
+					}
 					return &SliceVal{Len: it.evalTerm(call.Args[1]), Cells: map[string]*sym.Term{}, Zero: true}
 				}
 			}
@@ -1239,6 +1278,16 @@ func (it *Interp) callFunc(fn *types.Func, call *ast.CallExpr) Value {
 		} else {
 			it.undecided(call.Pos(), "IsInf sign argument")
 		}
+		if it.cfg.FiniteSyms {
+			switch {
+			case !strings.Contains(a.String(), "Inf"):
+				return &BoolVal{Known: true, V: false}
+			case a.String() == "-Inf":
+				return &BoolVal{Known: true, V: sg <= 0}
+			case a.String() == "+Inf":
+				return &BoolVal{Known: true, V: sg >= 0}
+			}
+		}
 		return &BoolVal{C: &Cond{Op: "isinf", A: a, Arg: sg}}
 	case "math.IsNaN":
 		return &BoolVal{C: &Cond{Op: "isnan", A: it.evalTerm(call.Args[0])}}
@@ -1261,6 +1310,13 @@ func (it *Interp) callFunc(fn *types.Func, call *ast.CallExpr) Value {
 	}
 	if fn.Pkg() != nil && fn.Pkg().Path() == "github.com/pbenner/autodiff" && (fn.Name() == "NullDenseVector" || fn.Name() == "NullVector") && len(call.Args) == 2 {
 		return &LocalVec{Len: it.evalTerm(call.Args[1]), Cells: map[string]*Loc{}}
+	}
+	if fn.Pkg() != nil && fn.Pkg().Path() == "github.com/pbenner/autodiff" && (fn.Name() == "NullDenseMatrix" || fn.Name() == "NullMatrix") && len(call.Args) == 3 {
+		r, ok1 := constIndex(it.evalTerm(call.Args[1]))
+		c, ok2 := constIndex(it.evalTerm(call.Args[2]))
+		if ok1 && ok2 && r*c <= 256 {
+			return NewLocalMatOn(it, r, c)
+		}
 	}
 	if fn.Name() == "NewConfigDistribution" && len(call.Args) >= 2 {
 		// the exported configuration: name and parameter list (nested distributions are not modelled)
@@ -1292,6 +1348,11 @@ var combinators = map[string]int{
 func (it *Interp) callMethod(fn *types.Func, call *ast.CallExpr) Value {
 	sel := ast.Unparen(call.Fun).(*ast.SelectorExpr)
 	recvV := it.eval(sel.X)
+	return it.methodOn(recvV, fn, call)
+}
+
+// methodOn dispatches a method call on an already evaluated receiver value.
+func (it *Interp) methodOn(recvV Value, fn *types.Func, call *ast.CallExpr) Value {
 	name := fn.Name()
 	pos := call.Pos()
 	switch rv := recvV.(type) {
@@ -1322,6 +1383,8 @@ func (it *Interp) callMethod(fn *types.Func, call *ast.CallExpr) Value {
 		return it.opaqueMethod(rv, fn, call)
 	case *LocalVec:
 		return it.localVecMethod(rv, name, call)
+	case *LocalMat:
+		return it.localMatMethod(rv, name, call)
 	}
 	it.undecided(pos, "method %s on %T", name, recvV)
 	return nil
@@ -1724,6 +1787,9 @@ func (it *Interp) forStmt(x *ast.ForStmt) {
 		case *sym.Term:
 			lo = t
 			obj := it.info.Defs[id]
+			if it.cfg.UnrollConst && it.unrollDown(x, obj, t) {
+				return
+			}
 			it.setVar(obj, bound, true)
 			it.loopVar[obj] = true
 			be, ok := x.Cond.(*ast.BinaryExpr)
